@@ -79,6 +79,10 @@ pub fn parse_expression(tokens: &mut TokenStream, id_gen: &mut IdGenerator, diag
 """
 
 WITNESSES = [
+    {"match": r"infix\.", "kind": "run", "props": ["C03"],
+     "input": "println(string_repr(0.1 +. 0.2 +. 0.3))\nprintln(string_repr(10000000000000000.0 +. 1.0 +. 1.0))\nprintln(string_repr(0.1 *. 0.2 *. 0.3))\nprintln(string_repr(\"a\" ^ \"b\" ^ \"c\"))\nprintln(string_repr(8 / 4 / 2))",
+     "expect": {"stdout": "0.6000000000000001\n10000000000000000.0\n0.006000000000000001\n\"abc\"\n1"},
+     "note": "float operators are not associative: a chain must still group to the left"},
     {"match": r"infix\.(operator_arm|left_associate)", "kind": "run", "props": ["C03"],
      "input": "println(string_repr(10 - 1 - 1 - 1))\nprintln(string_repr(100 / 2 / 5 / 2))\nprintln(string_repr(2 * 3 + 4 - 1 * 2))\nprintln(string_repr(10 - (1 - 1) - 1))\nprintln(string_repr(1 - 2 - 3 - 4 - 5))",
      "expect": {"stdout": "7\n5\n18\n9\n-13"}, "note": "chains of three or more operators group to the left"},
